@@ -96,6 +96,7 @@ func (l *linSum) aligned4() bool {
 type linEnv struct {
 	bind  map[ssa.Value]*linSum // parameter bindings of a substituted callee
 	depth int
+	calls int // nesting of substituted callees
 	why   string
 }
 
@@ -137,6 +138,10 @@ func (e *linEnv) sum(v ssa.Value, sign int64, out *linSum) bool {
 				}
 				in.c -= 3
 				in.canon()
+				if len(in.terms) == 0 {
+					out.c += sign * ((in.c + 3) &^ 3)
+					return true
+				}
 				out.add("round4("+in.String()+")", sign)
 				return true
 			}
@@ -148,6 +153,10 @@ func (e *linEnv) sum(v ssa.Value, sign int64, out *linSum) bool {
 						return false
 					}
 					in.canon()
+					if len(in.terms) == 0 {
+						out.c += sign * (((-in.c)%4 + 4) % 4)
+						return true
+					}
 					out.add("padrem("+in.String()+")", sign)
 					return true
 				}
@@ -164,7 +173,7 @@ func (e *linEnv) sum(v ssa.Value, sign int64, out *linSum) bool {
 			}
 			return e.fail(v, "builtin not modelled:")
 		}
-		if cal := t.Call.StaticCallee(); cal != nil && cal.Blocks != nil && e.depth < 8 {
+		if cal := t.Call.StaticCallee(); cal != nil && cal.Blocks != nil && e.calls < 4 {
 			var rets []*ssa.Return
 			for _, b := range cal.Blocks {
 				if r, ok := b.Instrs[len(b.Instrs)-1].(*ssa.Return); ok {
@@ -172,10 +181,10 @@ func (e *linEnv) sum(v ssa.Value, sign int64, out *linSum) bool {
 				}
 			}
 			if len(rets) == 1 && len(rets[0].Results) == 1 {
-				sub := &linEnv{bind: map[ssa.Value]*linSum{}, depth: e.depth}
+				sub := &linEnv{bind: map[ssa.Value]*linSum{}, depth: e.depth, calls: e.calls + 1}
 				for i, prm := range cal.Params {
 					a := newLin()
-					ae := &linEnv{bind: e.bind, depth: e.depth}
+					ae := &linEnv{bind: e.bind, depth: e.depth, calls: e.calls}
 					if ae.sum(t.Call.Args[i], 1, a) {
 						sub.bind[prm] = a
 					}
@@ -188,6 +197,28 @@ func (e *linEnv) sum(v ssa.Value, sign int64, out *linSum) bool {
 		}
 		return e.fail(v, "call not modelled:")
 	case *ssa.Phi:
+		// cursor of a counting loop "for ; pos != end; pos++": behind the loop pos == end
+		if blk := t.Block(); len(blk.Instrs) > 0 {
+			if iff, ok := blk.Instrs[len(blk.Instrs)-1].(*ssa.If); ok {
+				if cmp, ok := iff.Cond.(*ssa.BinOp); ok && cmp.Op == token.NEQ && (cmp.X == t || cmp.Y == t) {
+					end := cmp.Y
+					if cmp.Y == t {
+						end = cmp.X
+					}
+					steps := false
+					for _, ed := range t.Edges {
+						if inc, ok := ed.(*ssa.BinOp); ok && inc.Op == token.ADD && inc.X == t {
+							if k, isK := ana.ConstInt(inc.Y); isK && k == 1 {
+								steps = true
+							}
+						}
+					}
+					if in, ok := end.(ssa.Instruction); steps && (!ok || in.Block() != blk && in.Block().Dominates(blk)) {
+						return e.sum(end, sign, out)
+					}
+				}
+			}
+		}
 		// all inputs equal
 		var first *linSum
 		for _, ed := range t.Edges {
